@@ -189,7 +189,7 @@ def main() -> int:
     rep = common.Report("C18")
     rng = random.Random(common.seed() * 541 + 18)
     thorough = common.tier() == "thorough"
-    cases = [gen_source(rng) for _ in range(1500 if not thorough else 15000)]
+    cases = [gen_source(rng) for _ in range(1500 if not thorough else 60000)]
     recs, skipped = [], {}
     for r in pmap(run_case, cases, chunk=16):
         if r.get("_error") or r.get("_timeout"):
